@@ -186,3 +186,54 @@ func VH_C12_Nested() {
 	symAssert(err == nil, "renders")
 	symAssert(out == want, "nested-macro-calls")
 }
+
+// ---- C12.defaults: a default expression is evaluated at every call that omits the argument ----------
+
+// VH_C12_Defaults: a macro whose defaults are expressions over a variable of the calling template
+// (b = t ~ '!', c = t|upper, d = t == 'x' ? 'T' : 'F') is called K times in a row (through an import,
+// through from-import, in a loop, in an if), each call with a symbolic number of supplied arguments and
+// the variable t re-assigned before it; the page is rendered twice with different values: every call
+// shows the values its own arguments and the defaults, evaluated at that call, give.
+func VH_C12_Defaults() {
+	k := symParam("K", 3)
+	e := New()
+	e.RegisterString("lib", "{% macro m(a, b = t ~ '!', c = t|upper, d = t == 'x' ? 'T' : 'F') %}[{{ a }}|{{ b }}|{{ c }}|{{ d }}]{% endmacro %}")
+	forms := []string{"{{ l.m(%A) }}", "{{ g(%A) }}", "{% for q in [1] %}{{ l.m(%A) }}{% endfor %}", "{% if true %}{{ g(%A) }}{% endif %}"}
+	src := "{% import 'lib' as l %}{% from 'lib' import m as g %}"
+	nargs := make([]int, k)
+	for i := 0; i < k; i++ {
+		nargs[i] = 1 + symChoice(4)
+		args := []string{"'A'", "'B'", "'C'", "'D'"}[:nargs[i]]
+		src += "{% set t = t" + strconv.Itoa(i) + " %}" + vhReplace(forms[symChoice(len(forms))], "%A", vhJoin(args, ", "))
+	}
+	if e.RegisterString("page", src) != nil {
+		symAssert(false, "template-parses")
+		return
+	}
+	for round := 0; round < 2; round++ {
+		ctx := map[string]interface{}{}
+		want := ""
+		for i := 0; i < k; i++ {
+			t := symStringIn(1, "xy")
+			ctx["t"+strconv.Itoa(i)] = t
+			b, c, d := t+"!", vhUpperASCII(t), "F"
+			if t == "x" {
+				d = "T"
+			}
+			if nargs[i] >= 2 {
+				b = "B"
+			}
+			if nargs[i] >= 3 {
+				c = "C"
+			}
+			if nargs[i] >= 4 {
+				d = "D"
+			}
+			want += "[A|" + b + "|" + c + "|" + d + "]"
+		}
+		out, err := e.Render("page", ctx)
+		symAssert(err == nil, "renders")
+		symAssert(out == want, "defaults-evaluated-at-each-call")
+	}
+	symCover("rendered")
+}
